@@ -29,6 +29,12 @@ RULE = ("every request / notification reaches the peer in one of six ways chosen
         "ids and timer flag per incarnation), callbacks act through the incarnation that issued their request, a Tick fires the "
         "scan of every incarnation whose timer is armed (oldest first) and the realtimer histories let the real 1 s timers of "
         "replaced incarnations do it; "
+        "MANY outstanding requests: the bulk action ARep n a (= the action a, n times: C01_bulk_is_n_singles) issues n requests with the "
+        "same callback programme in one operation; fixed bulk histories: n = 1, 2, 100, 1023, 1024 (quick) + 1025, 3000 (thorough) "
+        "requests that all expire in ONE scan, each timeout callback issuing a follow-up request from inside the scan, then replies for "
+        "the first and the last follow-up, a reply for an id that timed out, and a later expiry for the rest; bulks with follow-ups only "
+        "at some positions of the scan (60+5+3 quick, 1020+5+3 and 2000+50+3 thorough, the retrying programme also notifying and issuing "
+        "a no-route request) and two big scans around a restart (thorough); "
         "fixed: 19 restart histories (requests outstanding at the restart, replies after it - unknown to the live incarnation or "
         "hitting a request of its own under the reused id -, retries from a replaced incarnation's timeout callbacks, restarts in "
         "a row, at the deadline boundary, at the allocator wrap, with unserialisable / no-route requests, through all six ways of "
@@ -61,7 +67,7 @@ TRUSTED_BASE = [
     "trace (Corr.with_hints, one hint per incarnation's scan); the theorems hold for every order; the order in which the timers of "
     "different incarnations fire within one second is fixed (oldest first) - they act on disjoint tables",
     "modelled not verified: protoactor (local Send = post to the target mailbox, FIFO per mailbox; supervision), cell2's mailbox and "
-    "runservice loop (C09/C04), utils/timer (the armed 1 s timer calls checkExpired: sampled by the realtimer cases, otherwise the "
+    "runservice loop (C09/C04), Go maps (Handlers: insert / lookup / delete / iteration in any order, len), utils/timer (the armed 1 s timer calls checkExpired: sampled by the realtimer cases, otherwise the "
     "harness fires the scan itself through VerifCheckExpired when the timer is armed), protobuf wire format (Model.v abstracts a body "
     "to the two field values it encodes - zero bytes for the all-default message - or junk; remote.Serialize / Deserialize and the "
     "type registry are driven for real, with the two test messages TestHello{I int32; S string} and EmptyArg), texts as numbers "
